@@ -640,7 +640,7 @@ def classify_prog(prog, query, observe, expected, observed):
             return "findall-solutions-share-variables"
         return None
     if sorted(map(repr, ce)) == sorted(map(repr, co)):
-        if direct_index_case(prog, query):
+        if direct_index_case(prog, query) and not index_in_order():
             return "clause-index-order"
         return "findall-order-not-sld"
     import collections
@@ -648,6 +648,21 @@ def classify_prog(prog, query, observe, expected, observed):
     if set(me) == set(mo) and len(co) < len(ce) and all(mo[k] <= me[k] for k in mo):
         return "findall-duplicates-collapsed"
     return None
+
+
+_INDEX_IN_ORDER = []
+
+
+def index_in_order():
+    """True when the real ClauseIndex.find returns clauses in program order on the witness history of the
+    (repaired) clause-index-order defect: then a permuted findall list cannot be blamed on the index."""
+    if not _INDEX_IN_ORDER:
+        h = (2, [('append', [None, 0]), ('append', [0, 1]), ('append', [None, 2]), ('find', [0, None])])
+        try:
+            _INDEX_IN_ORDER.append(index_impl(h) == index_spec(h))
+        except Exception:
+            _INDEX_IN_ORDER.append(False)
+    return _INDEX_IN_ORDER[0]
 
 
 def direct_index_case(prog, query):
